@@ -32,7 +32,58 @@ NUMS: List[Tuple[Fraction, List[str], List[str]]] = [
 ]
 
 
+ARITH_OPERANDS = ["1", "2", "3", "4", "5", "8", "0.5", "0.25", "1.5", "10", "2.0", ".5"]
+DIVISORS = ["2", "4", "8", "0.5", "0.25", "2.0"]
+
+
+def rand_arith(rng, standalone: bool) -> Dict[str, Any]:
+    """A random flat constant expression '(a op b op c ...)' with exact (dyadic) value.
+
+    Operators of one or both precedence levels are mixed freely; evaluation here uses ordinary
+    precedence and left associativity on Fractions.
+    """
+    k = rng.randint(2, 4)
+    mode = rng.choice(["mul", "mul", "mixed", "add"] if standalone else ["mul", "mul", "mixed"])
+    toks: List[str] = [rng.choice(ARITH_OPERANDS)]
+    for _ in range(k - 1):
+        if mode == "mul":
+            op = rng.choice("*/")
+        elif mode == "add":
+            op = rng.choice("+-")
+        else:
+            op = rng.choice("*/+-")
+        toks.append(op)
+        toks.append(rng.choice(DIVISORS) if op == "/" else rng.choice(ARITH_OPERANDS))
+    if mode == "mixed" and not any(t in "*/" for t in toks[1::2]):
+        toks[1] = "*"
+    # evaluate: first the multiplicative runs, then the additive chain
+    terms: List[Fraction] = []
+    signs: List[str] = ["+"]
+    cur = Fraction(toks[0])
+    for op, val in zip(toks[1::2], toks[2::2]):
+        v = Fraction(val)
+        if op == "*":
+            cur *= v
+        elif op == "/":
+            cur /= v
+        else:
+            terms.append(cur)
+            signs.append(op)
+            cur = v
+    terms.append(cur)
+    total = Fraction(0)
+    for sg, t in zip(signs, terms):
+        total = total + t if sg == "+" else total - t
+    sp = rng.choice(["", " "])
+    return {"s": "(" + sp.join(toks) + ")", "v": [total.numerator, total.denominator], "arith": True}
+
+
 def pick_num(rng, standalone: bool, simple: bool = False, nonzero: bool = False) -> Dict[str, Any]:
+    if not simple and rng.random() < 0.3:
+        for _ in range(5):
+            n = rand_arith(rng, standalone)
+            if not (nonzero and n["v"][0] == 0) and abs(n["v"][0]) < 10 ** 6 and n["v"][1] < 2 ** 20:
+                return n
     while True:
         val, anyw, alone = rng.choice(NUMS)
         if nonzero and val == 0:
